@@ -66,7 +66,7 @@ func (g *gen) markFork() forkPoint {
 	fx := g.rn.fx
 	d := fx.newDir("fp")
 	if err := copyImage(g.rn.main.dir, d); err != nil {
-		g.rn.r.Fatal("fork point: " + err.Error())
+		g.rn.fatal("fork point: " + err.Error())
 	}
 	fp := forkPoint{dir: d, trees: map[string]bool{}, snaps: map[string]int{}}
 	for _, t := range g.trees {
@@ -150,7 +150,7 @@ func (g *gen) newRoot() *treechangeproto.RawTreeChangeWithId {
 		Timestamp:  g.nextTs(),
 	}, g.rn.main.acl)
 	if err != nil {
-		g.rn.r.Fatal("CreateObjectTreeRoot: " + err.Error())
+		g.rn.fatal("CreateObjectTreeRoot: " + err.Error())
 	}
 	return root
 }
@@ -183,14 +183,14 @@ func (g *gen) replica(src string) *World {
 	fx := g.rn.fx
 	d := fx.newDir("gen")
 	if err := copyImage(src, d); err != nil {
-		g.rn.r.Fatal("replica copy: " + err.Error())
+		g.rn.fatal("replica copy: " + err.Error())
 	}
 	w, err := fx.open(d, false)
 	if err != nil {
-		g.rn.r.Fatal("replica open: " + err.Error())
+		g.rn.fatal("replica open: " + err.Error())
 	}
 	if err := w.attach(); err != nil {
-		g.rn.r.Fatal("replica attach: " + err.Error())
+		g.rn.fatal("replica attach: " + err.Error())
 	}
 	return w
 }
@@ -207,7 +207,7 @@ func (g *gen) grow(t objecttree.ObjectTree, n int, snapAt int) (raws []*treechan
 		res, err := t.AddContent(ctx, g.content(i == snapAt))
 		t.Unlock()
 		if err != nil {
-			g.rn.r.Fatal("replica AddContent: " + err.Error())
+			g.rn.fatal("replica AddContent: " + err.Error())
 		}
 		raws = append(raws, res.RawChanges()...)
 	}
@@ -222,11 +222,11 @@ func (g *gen) treeCreateDeferred() *opSpec {
 	b := g.replica(g.rn.main.dir)
 	st, err := b.ss.CreateTreeStorage(ctx, treestorage.TreeStorageCreatePayload{RootRawChange: root, Heads: []string{id}})
 	if err != nil {
-		g.rn.r.Fatal("replica CreateTreeStorage: " + err.Error())
+		g.rn.fatal("replica CreateTreeStorage: " + err.Error())
 	}
 	bt, err := objecttree.BuildObjectTree(st, b.acl)
 	if err != nil {
-		g.rn.r.Fatal("replica BuildObjectTree: " + err.Error())
+		g.rn.fatal("replica BuildObjectTree: " + err.Error())
 	}
 	n := 1 + g.r().Intn(3)
 	snapAt := -1
@@ -397,7 +397,7 @@ func (g *gen) remoteFrom(fp forkPoint, id string, kind string) *opSpec {
 	b := g.replica(fp.dir)
 	bt, err := b.tree(id)
 	if err != nil {
-		g.rn.r.Fatal("replica tree: " + err.Error())
+		g.rn.fatal("replica tree: " + err.Error())
 	}
 	n := 1 + g.r().Intn(4)
 	snapAt := -1
@@ -478,7 +478,7 @@ func (g *gen) aclAdd() *opSpec {
 	res, err := main.acl.RecordBuilder().BuildInvite()
 	main.acl.RUnlock()
 	if err != nil {
-		g.rn.r.Fatal("BuildInvite: " + err.Error())
+		g.rn.fatal("BuildInvite: " + err.Error())
 	}
 	rec := wrapAclRecord(res.InviteRec)
 	return &opSpec{
